@@ -83,7 +83,10 @@ def c_defines(texts):
     d = {}
     for t in texts:
         for m in re.finditer(r"^#define (\w+) (.+)$", t, re.M):
-            d.setdefault(m.group(1), m.group(2).strip())
+            v = m.group(2).strip()
+            if d.setdefault(m.group(1), v) != v:
+                # one macro name with two different bodies: the name no longer stands for one number
+                d[m.group(1)] = "<redefined: %s | %s>" % (d[m.group(1)], v)
     return d
 
 
